@@ -873,6 +873,21 @@ def union_cfgs():
         lambda: Either(Str, Either(Int, _List(Int))),
         lambda s: type(s) is int or isinstance(s, (str, list)),
         None, "sa", kind="Either-nested")
+    # the inner compound mixes a compiled and a Python-only member and is
+    # declared before an outer member that accepts the same values otherwise
+    from traits.api import BaseFloat as _BF, BaseInt as _BI, Float as _F
+    cfg("Either(Either(Str,BaseInt),Float)",
+        lambda: Either(Either(Str, _BI), _F),
+        lambda s: isinstance(s, (str, int, float)), None, "i1",
+        kind="Either-nested")
+    cfg("Either(Either(BaseInt,Str),Float)",
+        lambda: Either(Either(_BI, Str), _F),
+        lambda s: isinstance(s, (str, int, float)), None, "i1",
+        kind="Either-nested")
+    cfg("Either(Either(Str,BaseFloat),Int)",
+        lambda: Either(Either(Str, _BF), Int),
+        lambda s: isinstance(s, (str, int, float)), None, "i1",
+        kind="Either-nested")
     cfg("Union(None,Int)", lambda: Union(None, Int),
         lambda s: s is None or type(s) is int,
         lambda v: ("same", None) if v is None else CONFIGS["Int"].model(v),
